@@ -146,3 +146,51 @@ def judge(case, impl, resp, judge_rows):
     if impl.get("cols_head") != ["chromosome", "start", "end"]:
         dis.append("columns not sorted: " + repr(impl.get("cols_head")))
     return spec, dis, (sk if not dis and not spec else None)
+
+
+# ---- op `call_wrappers`: absolute_reference / absolute_expect / log2_ratios called directly ---------------------------------
+WRAP_CLAUSES = {"wrapper_reference_column", "wrapper_expect_column", "wrapper_log2_ratios"}
+
+
+def wrappers_case(rng, table):
+    """`table` = a C01 case (rows of every chromosome class, any genome option); the absolutes handed to log2_ratios are
+    arbitrary doubles (incl. 0, tiny, negative: the floor `min_abs_val` applies), not the ones do_call would compute"""
+    i = table["in"]
+    i["abs_f"] = [rng.choice([0.0, 1.0, 2.0, 3.0, 0.5, 1e-4, 2e-3, -1.0, float(rng.randint(0, 12)), rng.uniform(0, 9)])
+                  for _ in i["rows"]]
+    i["abs"] = [frac(a) for a in i["abs_f"]]
+    i.pop("entry", None)
+    table["op"] = "call_wrappers"
+    table["tag"] = "wrappers"
+    return table
+
+
+def run_wrappers(case):
+    import numpy as np
+    import pandas as pd
+    from cnvlib import call
+    i = case["in"]
+    cna = K.build_cna(i)
+    par = i.get("par_f", i["par"])
+    ref = call.absolute_reference(cna, i["ploidy"], par, i["hapX"])
+    exp = call.absolute_expect(cna, i["ploidy"], par, i["female"])
+    lg = call.log2_ratios(cna, pd.Series(i["abs_f"], index=cna.data.index, dtype=float), i["ploidy"], i["hapX"], par)
+    return {"reference": [int(v) for v in ref], "expect": [int(v) for v in exp],
+            "ratios": [frac(2.0 ** float(v)) for v in np.asarray(lg, dtype=float)]}
+
+
+def wrappers_to_line(case, impl):
+    line = K.to_line(case, {"__error__": "x"})
+    line["op"] = "call_wrappers"
+    if not (isinstance(impl, dict) and "__error__" in impl):
+        line["impl"] = impl
+    return line
+
+
+def wrappers_judge(case, impl, resp):
+    if isinstance(impl, dict) and "__error__" in impl:
+        return ["raises_" + impl["__error__"]], [], None
+    if "error" in resp:
+        return [], ["model error: " + str(resp["error"])], None
+    spec = [c for c in (resp.get("spec") or []) if c in WRAP_CLAUSES]
+    return spec, [], None
